@@ -22,6 +22,25 @@ add("C16", "model_checking",
     "rectangular boxes only; state copies share immutable KD-trees (faithfulness checked by replaying a history on a fresh engine).",
     "§3 C16")
 
-for _p in ["C01", "C02", "C03", "C04", "C05", "C06", "C07", "C08", "C09", "C10", "C11", "C12", "C13", "C14",
+add("C01", "exploration",
+    "bounded-exhaustive input-shape enumeration against a reference instantiation model",
+    "Every connected residue graph up to 4 (5) residues under every residue-id labelling, every resname assignment over four "
+    "blocks of 1-4 atoms, start ids 1 and 5, without links and with every single link template (thorough: pairs and triples), "
+    "is mapped by the real MapToMolecule/ApplyLinks and the atoms table and per-instance block interactions are compared "
+    "exactly with an independent re-indexing model. Off-by-one errors in atom/charge-group/resid offsets show on the smallest "
+    "mixed-size inputs, all of which are enumerated.",
+    "Trusts pmc/ref_genparams.py (instantiate); block sizes <= 4 atoms, <= 5 residues; blocks use resid 1 in their own table.",
+    "§2 C01")
+add("C02", "exploration",
+    "bounded-exhaustive input-shape enumeration against a brute-force link-matching reference (soundness and completeness)",
+    "All ordered subsets of <=2 (thorough: selected triples) of a 17-template link alphabet over all labelled connected residue "
+    "graphs n<=4 (5) and all resname assignments; the molecule produced by the real pipeline must equal the reference "
+    "(interactions with parameters/meta/version, atom-level edges, replaced attributes, removed atoms) exactly, which is both "
+    "'applied wherever it matches' and 'nowhere else'. The reference enumerates every injective residue assignment.",
+    "Trusts pmc/ref_genparams.py (apply_links) as the literal reading of the property: induced residue-level match with linktype, "
+    "vermouth's documented order table, unique atom match, non-edge and pattern vetoes, later definition wins.",
+    "§2 C02")
+
+for _p in ["C03", "C04", "C05", "C06", "C07", "C08", "C09", "C10", "C11", "C12", "C13", "C14",
            "C15", "C17", "C18", "C20"]:
     NOT_YET[_p] = "check under construction in this session (bounded exhaustive exploration applies; see DESIGN.md)"
